@@ -306,18 +306,14 @@ def check_mstep(R, s, model, aff, qf, where):
 
 
 def match_rows(a, b, tol):
-    """is a[f] a row permutation of b[f] for every f (arrays (F, K, T))? returns list of perms or None."""
+    """is a[f] a row permutation of b[f] for every f (arrays (F, K, T))? returns per f the list of all matching perms, or None."""
     F, K, _ = a.shape
     out = []
     for f in range(F):
-        found = None
-        for p in itertools.permutations(range(K)):
-            if np.abs(a[f] - b[f, list(p)]).max() <= tol:
-                found = p
-                break
-        if found is None:
+        found = [p for p in itertools.permutations(range(K)) if np.abs(a[f] - b[f, list(p)]).max() <= tol]
+        if not found:
             return None
-        out.append(found)
+        out.append(found)          # several when posterior rows coincide (classes masked out in this bin, duplicate classes)
     return out
 
 
@@ -388,8 +384,8 @@ def run_trace(case, R):
                     continue
                 R.check('C08.estep', perms is not None, f'estep/{kind}/aligned-posterior', f'iteration {i}: in-loop posterior is not a per-frequency row permutation of the Bayes posterior of the preceding model', opts=case['opts'])
                 if perms is not None and qref is not None:
-                    qp = np.stack([qref[f, list(p)] for f, p in enumerate(perms)])
-                    r = float((np.abs(np.asarray(qf) - qp) / qp).max())
+                    # rows that coincide leave the reordering ambiguous: any reordering that explains the posteriors may explain the quadratic forms
+                    r = max(min(float((np.abs(np.asarray(qf)[f] - qref[f, list(p)]) / qref[f, list(p)]).max()) for p in ps) for f, ps in enumerate(perms))
                     _l = np.asarray(prev.cacg.covariance_eigenvalues, dtype=float); cond = float((_l.max(-1) / _l.min(-1)).max())
                     R.check('C08.estep', r <= max(1e-8, 1e-14 * cond) * (1e4 if single else 1), f'estep/{kind}/aligned-quadratic-form', f'iteration {i}: quadratic forms are not permuted together with the posteriors (rel {r:.2e})', opts=case['opts'])
                 continue
